@@ -1,2 +1,9 @@
 """Translators producing lean/SkfemVerif/Gen/*.lean.  ALL = [(name, function returning changed?)]."""
-ALL = []
+
+
+def _quad():
+    from . import quad
+    return quad.generate()
+
+
+ALL = [("QuadTables", _quad)]
